@@ -444,9 +444,58 @@ def r_intclass(c):
          nontrivial=False)
 
 
+CREATORS = ("zeros", "ones", "full", "empty", "zeros_like", "ones_like", "full_like",
+            "empty_like", "arange")
+
+
+def r_creator_dtype(c):
+    """whatever the emitter CREATES (zeros, ones, full, *_like) gets the dtype of the
+    node spelled out, unless the node's dtype is the backend's default (float):
+    zeros_like(x) has x's dtype, not the dtype the node was built with"""
+    m = c.model
+    ci = m.cls(NPGEN)
+    n = 0
+    for mn, fd in sorted(ci.methods.items()):
+        ep = fd.args.args[1].arg if len(fd.args.args) > 1 else None
+        for call in ast.walk(fd):
+            if not (isinstance(call, ast.Call) and ast.unparse(call.func) == "ast.Call"
+                    and call.args and isinstance(call.args[0], ast.Call)
+                    and ast.unparse(call.args[0].func) == "ast.Attribute"
+                    and len(call.args[0].args) == 2
+                    and isinstance(call.args[0].args[1], ast.Constant)
+                    and call.args[0].args[1].value in CREATORS):
+                continue
+            creator = call.args[0].args[1].value
+            n += 1
+            kws = next((k.value for k in call.keywords if k.arg == "keywords"), None)
+            has_dtype = kws is not None and any(
+                isinstance(x, ast.Call) and ast.unparse(x.func) == "ast.keyword"
+                and any(k.arg == "arg" and ast.unparse(k.value) in ("'dtype'", '"dtype"')
+                        for k in x.keywords)
+                and f"{ep}.dtype" in ast.unparse(x) for x in ast.walk(kws))
+            default_guard = False
+            p = call
+            while p is not fd:
+                par = p._parent
+                if isinstance(par, ast.If) and p in par.body and ast.unparse(par.test) in (
+                        f"{ep}.dtype == np.dtype(float)", f"{ep}.dtype == np.float64",
+                        f"np.dtype(float) == {ep}.dtype"):
+                    default_guard = True
+                p = par
+            ok = has_dtype or (default_guard and not creator.endswith("_like"))
+            c.check(ok, "R14-CONSUME", f"NumpyCodegenMapper.{mn}",
+                    f"creates-with-the-node's-dtype:{creator}", m.loc(ci.module, call),
+                    f"`{creator}(...)` is emitted without dtype={ep}.dtype (and not under a "
+                    "test that the dtype is the default float): the generated program "
+                    "returns another dtype than the expression declares "
+                    "(zeros_like(a, dtype=int32) comes back as float64)")
+    if n < 4:
+        raise AnalysisError(f"only {n} array-creating emissions found (floor 4)")
+
+
 SPEC = Spec(
     prop="C14",
-    rules=[r_namespace, r_tables, r_consume, r_args, r_unsupported, r_operator_inventory, r_intclass],
+    rules=[r_namespace, r_tables, r_consume, r_args, r_unsupported, r_operator_inventory, r_intclass, r_creator_dtype],
     floors={"R14-NAMESPACE": 40, "R14-TABLES": 50, "R14-CONSUME": 20, "R14-ARGS": 12,
             "R14-UNSUPPORTED": 6},
     explanation=(
